@@ -52,9 +52,12 @@ def run(chk):
             chk.finding("conn.go processPacket / processHandshakePacket (record emitted without protection)",
                         {"monitor": "secret bytes in clear on the wire", "what": lk["what"].split(":")[0],
                          "v13": r["v13"]},
-                        "%s bytes %s found in clear in datagram #%d written by the %s [variant %s, drop %d, early-writes %s]" % (
-                            lk["what"], lk["sec"], lk["idx"], lk["from"], r["variant"], r["drop"], r["early"]),
-                        {"variant": r["variant"], "drop": r["drop"], "early": r["early"], "leak": lk,
+                        "%s bytes %s found in clear in datagram #%d written by the %s [variant %s, drop %d, post-handshake "
+                        "drop %d, KeyUpdate drop %d, early-writes %s]" % (
+                            lk["what"], lk["sec"], lk["idx"], lk["from"], r["variant"], r["drop"], r.get("post_drop", -1),
+                            r.get("ku_drop", -1), r["early"]),
+                        {"variant": r["variant"], "drop": r["drop"], "post_drop": r.get("post_drop", -1),
+                         "ku_drop": r.get("ku_drop", -1), "early": r["early"], "leak": lk,
                          "how": "run the session of `variant` dropping datagram `drop`; datagram `leak.idx` contains `leak.sec`"})
             break
     seen_lab = set()
@@ -81,6 +84,17 @@ def run(chk):
             found = True
             chk.finding("conn.go receive path", {"monitor": "Read returned a payload nobody wrote"},
                         "%d unknown payloads [variant %s]" % (r["unknown"], r["variant"]), {"session": r})
+            break
+    for r in inj:
+        if r.get("queued"):
+            found = True
+            chk.finding("conn.go handleApplicationDataRecord", {"monitor": "epoch-0 application data accepted into the Read queue",
+                                                                  "v13": r["v13"]},
+                        "an unprotected (epoch 0) application_data record delivered while the handshake was running was put "
+                        "into the Read queue (Read returned it afterwards: %s) [variant %s, before handshake datagram #%d, "
+                        "target %s]" % (r["marker_read"], r["variant"], r["stage"], r["target"]),
+                        {"variant": r["variant"], "stage": r["stage"], "target": r["target"], "hex": r["marker_hex"],
+                         "how": "deliver `hex` to `target` before handshake datagram #stage; complete the handshake; Read on `target`"})
             break
     for r in inj:
         if r["marker_read"]:
@@ -155,7 +169,8 @@ def run(chk):
     keys = []
     for r in sess:
         for l in r["labels"] or []:
-            keys.append((r["variant"], r["early"], l["from"], l["ct"], l["ht"], l["epoch"], l["enc"]))
+            keys.append((r["variant"], r["early"], r.get("post_drop", -1), r.get("ku_drop", -1), l["from"], l["ct"], l["ht"],
+                         l["epoch"], l["enc"]))
     chk.count("wire-scan", n_rec, keys, samples=[{"variant": r["variant"], "drop": r["drop"], "labels": (r["labels"] or [])[:4]}
                                                  for r in sess[:2]])
     chk.count("epoch0-injection", len(inj), [(r["variant"], r["stage"], r["target"]) for r in inj],
